@@ -37,6 +37,15 @@ const (
 	// timeouts plus two watchdog periods (1.7 s); a call that only ends because
 	// of this deadline never gave up by itself ("hung").
 	callerDeadline = 6 * time.Second
+	// A call that has not returned this long after its caller's context ended
+	// is recorded as never returning ("never"); the driver moves on.
+	hardGrace = 2 * callerDeadline
+	// inp.cancel: the caller cancels this long into the call (before any timer
+	// of the connector can fire, after every honest exchange is over)
+	cancelAfter = 120 * time.Millisecond
+	// how long the daemon is given to notice that an abandoned request's
+	// connection was closed
+	abandonGrace = 3 * time.Second
 )
 
 type caseIn struct {
@@ -50,23 +59,25 @@ type caseIn struct {
 	Beh        []string          `json:"beh"`
 	Obeh       []string          `json:"obeh"`
 	Ohang      bool              `json:"ohang"`
+	Cancel     bool              `json:"cancel"`
 	Depth      int               `json:"depth"`
 	SwapV      bool              `json:"swapv"`
 	Nontrivial bool              `json:"nontrivial"`
 }
 
 type specIn struct {
-	Op    string            `json:"op"`
-	Mode  string            `json:"mode"`
-	Upd   bool              `json:"upd"`
-	Norig int               `json:"norig"`
-	Prior map[string]string `json:"prior"`
-	Intf  string            `json:"intf"`
-	Beh   []string          `json:"beh"`
-	Obeh  []string          `json:"obeh"`
-	Ohang bool              `json:"ohang"`
-	Depth int               `json:"depth"`
-	SwapV bool              `json:"swapv"`
+	Op     string            `json:"op"`
+	Mode   string            `json:"mode"`
+	Upd    bool              `json:"upd"`
+	Norig  int               `json:"norig"`
+	Prior  map[string]string `json:"prior"`
+	Intf   string            `json:"intf"`
+	Beh    []string          `json:"beh"`
+	Obeh   []string          `json:"obeh"`
+	Ohang  bool              `json:"ohang"`
+	Cancel bool              `json:"cancel"`
+	Depth  int               `json:"depth"`
+	SwapV  bool              `json:"swapv"`
 }
 
 type specOut struct {
@@ -77,10 +88,15 @@ type specOut struct {
 	Swarm  []int             `json:"swarm"`
 	// ByDeadline: the call returned by itself, well before the caller's own
 	// deadline (res "hung" otherwise: only the caller's context ended it)
-	ByDeadline bool     `json:"by_deadline"`
-	Ms         int64    `json:"ms"`
-	Err        string   `json:"err"`
-	Mismatch   []string `json:"mismatch"`
+	ByDeadline bool `json:"by_deadline"`
+	// Returned: the call came back at all (within callerDeadline + hardGrace)
+	Returned bool `json:"returned"`
+	// Abandoned (cancel scripts): every request the daemon was sitting on had
+	// its connection closed by the connector
+	Abandoned bool     `json:"abandoned"`
+	Ms        int64    `json:"ms"`
+	Err       string   `json:"err"`
+	Mismatch  []string `json:"mismatch"`
 }
 
 type rec struct {
@@ -224,19 +240,45 @@ func runCase(c *caseIn, names *hx.Names, client *rpc.Client) (*rec, error) {
 	ctx, cancel := context.WithTimeout(context.Background(), callerDeadline)
 	defer cancel()
 	out := specOut{Reqs: []reqLog{}, Swarm: []int{}, Mismatch: []string{}}
-	t0 := time.Now()
-	var cerr error
-	switch c.Op {
-	case "pin":
-		cerr = conn.Pin(ctx, pin)
-	case "unpin":
-		cerr = conn.Unpin(ctx, c1)
-	case "lscid":
-		var st api.IPFSPinStatus
-		st, cerr = conn.PinLsCid(ctx, pin)
-		out.Status = statusNames[st]
-	default:
+	if c.Op != "pin" && c.Op != "unpin" && c.Op != "lscid" {
 		return nil, fmt.Errorf("unknown op %q", c.Op)
+	}
+	t0 := time.Now()
+	if c.Cancel {
+		tm := time.AfterFunc(cancelAfter, cancel)
+		defer tm.Stop()
+	}
+	// the call runs in its own goroutine under a hard watchdog: whatever the
+	// connector does, the driver ends in bounded time
+	type callRes struct {
+		err error
+		st  api.IPFSPinStatus
+	}
+	resCh := make(chan callRes, 1)
+	go func() {
+		var cr callRes
+		switch c.Op {
+		case "pin":
+			cr.err = conn.Pin(ctx, pin)
+		case "unpin":
+			cr.err = conn.Unpin(ctx, c1)
+		case "lscid":
+			cr.st, cr.err = conn.PinLsCid(ctx, pin)
+		}
+		resCh <- cr
+	}()
+	var cerr error
+	hard := time.NewTimer(callerDeadline + hardGrace)
+	select {
+	case cr := <-resCh:
+		hard.Stop()
+		out.Returned = true
+		cerr = cr.err
+		if c.Op == "lscid" {
+			out.Status = statusNames[cr.st]
+		}
+	case <-hard.C:
+		// leaked on purpose; it unwinds when the daemon's connections are closed below
 	}
 	el := time.Since(t0)
 	// observe the daemon at the moment the call returned
@@ -255,6 +297,9 @@ func runCase(c *caseIn, names *hx.Names, client *rpc.Client) (*rec, error) {
 	out.Ms = el.Milliseconds()
 	out.ByDeadline = el < callerDeadline*9/10
 	switch {
+	case !out.Returned:
+		out.Res = "never"
+		out.Err = "the call did not return"
 	case cerr == nil:
 		out.Res = "ok"
 	case !out.ByDeadline:
@@ -267,6 +312,20 @@ func runCase(c *caseIn, names *hx.Names, client *rpc.Client) (*rec, error) {
 	if len(out.Err) > 400 {
 		out.Err = out.Err[:400]
 	}
+	if c.Cancel {
+		// did the connector give up the request(s) the daemon was sitting on?
+		for t := time.Now(); ; time.Sleep(10 * time.Millisecond) {
+			d.mu.Lock()
+			b, g := d.blocked, d.gone
+			d.mu.Unlock()
+			if b > 0 && g >= b {
+				out.Abandoned = true
+			}
+			if b == 0 || out.Abandoned || time.Since(t) > abandonGrace {
+				break
+			}
+		}
+	}
 	closeAll()
 	nz := func(s []string) []string {
 		if s == nil {
@@ -275,7 +334,7 @@ func runCase(c *caseIn, names *hx.Names, client *rpc.Client) (*rec, error) {
 		return s
 	}
 	return &rec{ID: c.ID, In: specIn{Op: c.Op, Mode: c.Mode, Upd: c.Upd, Norig: c.Norig, Prior: c.Prior, Intf: c.Intf,
-		Beh: nz(c.Beh), Obeh: nz(c.Obeh), Ohang: c.Ohang, Depth: c.Depth, SwapV: c.SwapV}, Out: out}, nil
+		Beh: nz(c.Beh), Obeh: nz(c.Obeh), Ohang: c.Ohang, Cancel: c.Cancel, Depth: c.Depth, SwapV: c.SwapV}, Out: out}, nil
 }
 
 // runSteady repeats a script when the call took much longer than the timers
@@ -302,7 +361,7 @@ func runSteady(c *caseIn, names *hx.Names, client *rpc.Client) (*rec, error) {
 			return nil, err
 		}
 		// a call that needed the caller's deadline is repeated once at most
-		if err != nil || attempt >= 2 || (attempt >= 1 && r.Out.Res == "hung") {
+		if err != nil || attempt >= 2 || (attempt >= 1 && r.Out.Res == "hung") || r.Out.Res == "never" {
 			return r, err
 		}
 		budget := int64(250)
@@ -312,7 +371,7 @@ func runSteady(c *caseIn, names *hx.Names, client *rpc.Client) (*rec, error) {
 				budget += requestTimeout.Milliseconds()
 			case q.Beh == "stall" && q.Ep == "rm":
 				budget += unpinTimeout.Milliseconds()
-			case q.Beh == "stall" && q.Ep == "update":
+			case (q.Beh == "stall" && q.Ep == "update") || q.Beh == "progForever":
 				budget += callerDeadline.Milliseconds()
 			case q.Beh == "stall" || q.Beh == "progStall" || q.Beh == "flat":
 				budget += 2 * pinTimeout.Milliseconds()
